@@ -15,7 +15,7 @@
 EXTENDS Integers, FiniteSets
 
 Mappings == {"GM", "CAM"}
-Devs == {"none", "password", "nonce", "mapkey", "mapkey-echo", "kakey", "kakey-echo", "reflect", "token", "ecad",
+Devs == {"none", "password", "nonce", "mapkey", "mapkey-echo", "kakey", "kakey-echo", "reflect", "token", "ecad", "ecad-absent",
          "sw-mse", "sw-nonce", "sw-map", "sw-ka", "sw-token", "cardsec-key"}
 \* "reflect": a counterpart that knows NO password: it relays the nonce / mapping steps of a chip (or makes them up),
 \* sends the terminal's own key agreement key back and then the terminal's own token T_IFD as T_IC. With
@@ -83,11 +83,12 @@ StatusError == dev \in {"sw-mse", "sw-nonce", "sw-map", "sw-ka", "sw-token"}
 
 \* chip authentication data: CA_IC with CA_IC * PK_IC = PK_Map,IC ; encrypted under KSenc
 \* the terminal recovers it iff the cryptogram is intact, and checks it against the key in CardSecurity
-CamOK == /\ mapping = "CAM" /\ dev # "ecad"
+\* ("ecad-absent": a counterpart that knows the password but not the static private key simply leaves the object out)
+CamOK == /\ mapping = "CAM" /\ dev \notin {"ecad", "ecad-absent"}
          /\ dev # "cardsec-key"                             \* CardSecurity publishes another key than the chip used
 
 Init == /\ mapping \in Mappings /\ dev \in Devs
-        /\ (dev \in {"ecad", "cardsec-key"} => mapping = "CAM")
+        /\ (dev \in {"ecad", "ecad-absent", "cardsec-key"} => mapping = "CAM")
         /\ done = FALSE /\ termResult = "none" /\ camResult = "none" /\ termSM = NoKeys /\ chipSM = NoKeys
         /\ chipCompleted = FALSE /\ chipCamGenuine = FALSE
 
@@ -116,7 +117,7 @@ Completeness == (done /\ dev = "none") => (termResult = "success" /\ chipComplet
 FailClosed == (done /\ dev \in {"password", "nonce", "mapkey", "mapkey-echo", "kakey", "kakey-echo", "reflect", "token"}) =>
                  (termResult = "failure" /\ termSM = NoKeys /\ camResult # "success")
 \* (c) only the encrypted chip authentication data altered (or a foreign key published): CAM not successful
-CamGated == (done /\ dev \in {"ecad", "cardsec-key"}) => camResult # "success"
+CamGated == (done /\ dev \in {"ecad", "ecad-absent", "cardsec-key"}) => camResult # "success"
 \* success always means shared keys with the chip
 Agreement == (done /\ termResult = "success") => (termSM = chipSM /\ chipCompleted)
 \* a status error at any step is a failure without session
